@@ -11,7 +11,7 @@ import Mathlib.Tactic.Ring
 import Mathlib.Tactic.Linarith
 
 namespace Ymq.M128
-open Ymq.Mg64 (W)
+open Ymq.Mg64 (W tzAux_spec le_of_pow_dvd_of_odd_quot)
 
 theorem W2_eq : W2 = W * W := by decide
 theorem W_pos : 0 < W := by decide
@@ -218,10 +218,7 @@ theorem invLoop_sound : ∀ f n x x', x < W2 → invLoop f n x = some x' → x' 
         cases h
         exact ⟨hx, by omega⟩
       · simp only [h1, if_false] at h
-        by_cases h2 : x + 2 ^ tz128 (n * x % W2 - 1) ≥ W2
-        · simp [h2] at h
-        · simp only [h2, if_false] at h
-          exact ih n _ x' (by omega) h
+        exact ih n _ x' (Nat.mod_lt _ W2_pos) h
 
 /-- soundness of `M128::inv_2adic`: a returned value is the negated inverse of `n` modulo `R` -/
 theorem inv2adic_sound (n v : Nat) (h : inv2adic n = some v) :
@@ -265,5 +262,191 @@ theorem inv2adic_sound (n v : Nat) (h : inv2adic n = some v) :
         have h2 : n * x ≡ 1 [MOD W2] := by unfold Nat.ModEq; rw [hxinv]; rfl
         exact Nat.ModEq.add_right_cancel h2 h1
   · simp [hodd] at h
+
+theorem W2_pow : W2 = 2 ^ 128 := by decide
+
+theorem tz128_spec (n : Nat) (h0 : 0 < n) (h1 : n < W2) :
+    tz128 n < 128 ∧ n % 2 ^ (tz128 n) = 0 ∧ n / 2 ^ (tz128 n) % 2 = 1 := by
+  unfold tz128
+  have : n ≠ 0 := by omega
+  simp only [this, if_false]
+  exact tzAux_spec 128 n h0 (by rw [← W2_pow]; exact h1)
+
+/-- Invariant of the loop of `M128::inv_2adic`: `n x ≡ 1 (mod 2^j)` and `j` increases at every
+turn, hence at most `129 - j` turns are left (any start value `x`, wrapping addition). -/
+theorem invLoop_spec (n : Nat) (hn : n % 2 = 1) :
+    ∀ f j x, 1 ≤ j → j ≤ 128 → x < W2 → n * x % 2 ^ j = 1 → 129 ≤ f + j →
+    ∃ x', invLoop f n x = some x' ∧ x' < W2 ∧ n * x' % W2 = 1 := by
+  intro f
+  induction f with
+  | zero => intro j x _ _ _ _ h; omega
+  | succ f ih =>
+    intro j x hj1 hj128 hxW hinv hf
+    have hjW : 2 ^ j ∣ W2 := by rw [W2_pow]; exact pow_dvd_pow 2 hj128
+    have hW0 : 0 < W2 := W2_pos
+    have hnx : n * x % W2 % 2 ^ j = 1 := by rw [Nat.mod_mod_of_dvd _ hjW]; exact hinv
+    have hj2 : 2 ≤ 2 ^ j := by
+      calc 2 = 2 ^ 1 := rfl
+        _ ≤ 2 ^ j := Nat.pow_le_pow_right (by decide) hj1
+    have hnx0 : n * x % W2 ≠ 0 := by
+      intro h; rw [h, Nat.zero_mod] at hnx; omega
+    unfold invLoop
+    simp only [hnx0, if_false]
+    by_cases hrem : n * x % W2 - 1 = 0
+    · simp only [hrem, if_true]
+      exact ⟨x, rfl, hxW, by omega⟩
+    · simp only [hrem, if_false]
+      have hremW : n * x % W2 - 1 < W2 := by have := Nat.mod_lt (n * x) hW0; omega
+      obtain ⟨ht128, htdvd, htodd⟩ := tz128_spec _ (Nat.pos_of_ne_zero hrem) hremW
+      generalize ht : tz128 (n * x % W2 - 1) = t at *
+      have hremj : (n * x % W2 - 1) % 2 ^ j = 0 := by
+        have := Nat.div_add_mod (n * x % W2) (2 ^ j)
+        rw [hnx] at this
+        have e : n * x % W2 - 1 = 2 ^ j * (n * x % W2 / 2 ^ j) := by omega
+        rw [e, Nat.mul_mod_right]
+      have hjt : j ≤ t := le_of_pow_dvd_of_odd_quot _ j t hremj htdvd htodd
+      refine ih (t + 1) ((x + 2 ^ t) % W2) (by omega) (by omega) (Nat.mod_lt _ hW0) ?_ (by omega)
+      -- n (x + 2^t) = 1 (mod 2^(t+1))
+      obtain ⟨u, hu⟩ : ∃ u, W2 = 2 ^ (t + 1) * u := by
+        refine ⟨2 ^ (127 - t), ?_⟩
+        rw [W2_pow, ← pow_add]; congr 1; omega
+      have hdvd : 2 ^ (t + 1) ∣ W2 := ⟨u, hu⟩
+      have hred : n * ((x + 2 ^ t) % W2) % 2 ^ (t + 1) = n * (x + 2 ^ t) % 2 ^ (t + 1) := by
+        rw [Nat.mul_mod, Nat.mod_mod_of_dvd _ hdvd, ← Nat.mul_mod]
+      rw [hred]
+      have e1 := Nat.div_add_mod (n * x) W2
+      have e2 := Nat.div_add_mod (n * x % W2 - 1) (2 ^ t)
+      rw [htdvd] at e2
+      have e3 := Nat.div_add_mod ((n * x % W2 - 1) / 2 ^ t) 2
+      rw [htodd] at e3
+      have e4 := Nat.div_add_mod n 2
+      rw [hn] at e4
+      generalize (n * x % W2 - 1) / 2 ^ t / 2 = q at e3
+      generalize n / 2 = m at e4
+      generalize n * x / W2 = a at e1
+      have e5 : n * x % W2 = 2 ^ t * (2 * q + 1) + 1 := by
+        have : 0 < n * x % W2 := Nat.pos_of_ne_zero hnx0
+        rw [← e3] at e2; omega
+      have key : n * (x + 2 ^ t) = 2 ^ (t + 1) * (u * a + q + m + 1) + 1 := by
+        have : n * (x + 2 ^ t) = n * x + n * 2 ^ t := by ring
+        rw [this, ← e1, e5, hu, ← e4, pow_succ]; ring
+      rw [key, Nat.mul_add_mod]
+      have : 2 ≤ 2 ^ (t + 1) := by
+        calc 2 = 2 ^ 1 := rfl
+          _ ≤ 2 ^ (t + 1) := Nat.pow_le_pow_right (by decide) (by omega)
+      exact Nat.mod_eq_of_lt (by omega)
+
+
+/-- `M128::inv_2adic` is total on odd `n < 2^128` and returns `v < R` with `n·v ≡ -1 (mod R)`
+(`R = 2^64` if `n < 2^64`, else `2^128`). -/
+theorem inv2adic_spec (n : Nat) (hodd : n % 2 = 1) (_hn2 : n < W2) :
+    ∃ v, inv2adic n = some v ∧
+      (if n < W then v < W ∧ (n * v + 1) % W = 0 else v < W2 ∧ (n * v + 1) % W2 = 0) := by
+  obtain ⟨x0, hx0, hx0W, hx0inv⟩ := Ymq.Mg64.mg2adicInv_odd (n % W) (by
+    have : W = 2 * (W / 2) := by decide
+    rw [this, Nat.mod_mul_right_mod]; exact hodd)
+  have hWW2 : W < W2 := by decide
+  by_cases hs : n < W
+  · have hd : n / W = 0 := Nat.div_eq_of_lt hs
+    refine ⟨x0, ?_, ?_⟩
+    · unfold inv2adic
+      simp only [hodd, ne_eq, not_true_eq_false, if_false, hx0, hd, if_true]
+    · simp only [hs, if_true]
+      rw [Nat.mod_eq_of_lt hs] at hx0inv
+      exact ⟨hx0W, hx0inv⟩
+  · have hd : ¬ (n / W = 0) := by
+      intro h0
+      have := (Nat.div_eq_zero_iff).1 h0
+      have hW : 0 < W := by decide
+      omega
+    -- the start value is odd, so n·x0 ≡ 1 (mod 2)
+    have hx0odd : n * x0 % 2 ^ 1 = 1 := by
+      have h2W : (2 : Nat) ∣ W := ⟨W / 2, by decide⟩
+      have h1 : (n % W * x0 + 1) % 2 = 0 := by
+        have := Nat.mod_mod_of_dvd (n % W * x0 + 1) h2W
+        rw [hx0inv] at this; simpa using this.symm
+      have h3 : n % W % 2 = 1 := by rw [Nat.mod_mod_of_dvd _ h2W]; exact hodd
+      have h4 : (n % W * x0) % 2 = 1 := by omega
+      rw [Nat.mul_mod, h3] at h4
+      rw [pow_one, Nat.mul_mod, hodd]; exact h4
+    obtain ⟨x, hl, hxlt, hxinv⟩ := invLoop_spec n hodd 130 1 x0 (by omega) (by omega)
+      (lt_trans hx0W hWW2) hx0odd (by omega)
+    have hx : x ≠ 0 := by
+      intro hx; rw [hx] at hxinv; simp at hxinv
+    refine ⟨W2 - x, ?_, ?_⟩
+    · unfold inv2adic
+      simp only [hodd, ne_eq, not_true_eq_false, if_false, hx0, hd, hl, hxinv, hx]
+    · have h := inv2adic_sound n (W2 - x) (by
+        unfold inv2adic
+        simp only [hodd, ne_eq, not_true_eq_false, if_false, hx0, hd, hl, hxinv, hx])
+      simp only [hs, if_false] at h ⊢
+      exact ⟨by omega, h⟩
+
+/-! ### `r_r2` -/
+
+theorem coprime_W2 (n : Nat) (h : n % 2 = 1) : Nat.gcd n W2 = 1 := by
+  have h1 : Nat.gcd n 2 = 1 := by
+    have h1 : Nat.gcd n 2 ∣ 2 := Nat.gcd_dvd_right n 2
+    have h2 : Nat.gcd n 2 ∣ n := Nat.gcd_dvd_left n 2
+    have h3 : Nat.gcd n 2 ≤ 2 := Nat.le_of_dvd (by omega) h1
+    have h4 : Nat.gcd n 2 ≠ 0 := by
+      intro h0; rw [h0] at h1; omega
+    by_contra hne
+    have : Nat.gcd n 2 = 2 := by omega
+    rw [this] at h2
+    omega
+  have h2 : Nat.Coprime n (2 ^ 128) := Nat.Coprime.pow_right _ h1
+  have : W2 = 2 ^ 128 := by decide
+  rw [this]; exact h2
+
+theorem sqLoop_spec (n ninv : Nat) (hodd : n % 2 = 1) (hnW : W ≤ n) (hn2 : n < W2)
+    (hninv : (n * ninv + 1) % W2 = 0) :
+    ∀ t a r, r < n → r % n = a * W2 % n →
+      ∃ r', sqLoop n ninv t r = some r' ∧ r' < n ∧ r' % n = a ^ (2 ^ t) * W2 % n := by
+  intro t
+  induction t with
+  | zero => intro a r hr h; exact ⟨r, rfl, hr, by simpa using h⟩
+  | succ t ih =>
+    intro a r hr h
+    obtain ⟨r1, e1, e2, e3⟩ := mul_spec_big n ninv r r hnW hn2 hninv hr (lt_trans hr hn2)
+    have hc : r1 * W2 % n = (a ^ 2 * W2) * W2 % n := by
+      have e : a * W2 * (a * W2) = a ^ 2 * W2 * W2 := by ring
+      rw [e3, Nat.mul_mod, h, ← Nat.mul_mod, e]
+    have h1 : r1 % n = (a ^ 2) * W2 % n :=
+      Nat.ModEq.cancel_right_of_coprime (coprime_W2 n hodd) hc
+    obtain ⟨r', f1, f2, f3⟩ := ih (a ^ 2) r1 e2 h1
+    refine ⟨r', by simp only [sqLoop, e1, f1], f2, ?_⟩
+    rw [f3, ← pow_mul, pow_succ, Nat.mul_comm 2]
+
+/-- `M128::r_r2`: `(R mod n, R² mod n)` with `R = 2^64` if `n < 2^64`, else `2^128`. -/
+theorem rR2_spec (n ninv : Nat) (hodd : n % 2 = 1) (hn2 : n < W2)
+    (hninv : if n < W then (n * ninv + 1) % W = 0 else (n * ninv + 1) % W2 = 0) :
+    rR2 n ninv = some (if n < W then (W % n, W * W % n) else (W2 % n, W2 * W2 % n)) := by
+  have hnp : 0 < n := by omega
+  have hn0 : n ≠ 0 := by omega
+  have hr : (W2 - n) % W2 % n = W2 % n := by
+    rw [Nat.mod_eq_of_lt (by omega : W2 - n < W2)]
+    conv_rhs => rw [show W2 = (W2 - n) + n by omega, Nat.add_mod_right]
+  unfold rR2
+  simp only [hn0, if_false, hr]
+  by_cases hs : n < W
+  · have hd : n / W = 0 := Nat.div_eq_of_lt hs
+    simp only [hd, hs, if_true, W2_eq]
+  · have hd : ¬ (n / W = 0) := by
+      intro h0
+      have := (Nat.div_eq_zero_iff).1 h0
+      have hW : 0 < W := by decide
+      omega
+    simp only [hs, if_false] at hninv
+    simp only [hd, hs, if_false]
+    have hrn : W2 % n < n := Nat.mod_lt _ hnp
+    obtain ⟨two, e1, e2, e3⟩ := add_spec n (W2 % n) (W2 % n) hn2 hrn hrn
+    have h2 : two % n = 2 * W2 % n := by
+      rw [e3, ← Nat.add_mod, Nat.two_mul]
+    obtain ⟨r2, f1, f2, f3⟩ := sqLoop_spec n ninv hodd (by omega) hn2 hninv 7 2 two e2 h2
+    simp only [e1, f1]
+    have : (2 : Nat) ^ 2 ^ 7 = W2 := by decide
+    rw [this, Nat.mod_eq_of_lt f2] at f3
+    rw [f3]
 
 end Ymq.M128
